@@ -83,12 +83,13 @@ class LoopContext:
     continue_jumps: List[int] = field(default_factory=list)
     label: Optional[str] = None
     is_loop: bool = True  # False for switch statements (break only, no continue)
-
-
-@dataclass
-class TryContext:
-    """Context for try-finally blocks (for break/continue/return)."""
-
+    # Operands the statement keeps on the stack while its body runs (for-in/for-of
+    # iterator, switch discriminant); popped when control leaves the statement
+    stack_slots: int = 0
+    # try statements are tracked on the same stack so that leaving one (break,
+    # continue, return) can end its protected region and run its finally block
+    is_try: bool = False
+    protected: bool = False  # inside the region between TRY_START and TRY_END
     finalizer: Any = None  # The finally block AST node
 
 
@@ -101,9 +102,7 @@ class Compiler:
         self.names: List[str] = []
         self.locals: List[str] = []
         self.loop_stack: List[LoopContext] = []
-        self.try_stack: List[TryContext] = (
-            []
-        )  # Track try-finally for break/continue/return
+        self._pending_label: Optional[str] = None  # label of the loop being compiled
         self.functions: List[CompiledFunction] = []
         self._in_function: bool = False  # Track if we're compiling inside a function
         self._outer_locals: List[List[str]] = []  # Stack of outer scope locals
@@ -203,12 +202,57 @@ class Compiler:
         self.bytecode[pos + 1] = target & 0xFF  # Low byte
         self.bytecode[pos + 2] = (target >> 8) & 0xFF  # High byte
 
-    def _emit_pending_finally_blocks(self) -> None:
-        """Emit all pending finally blocks (for break/continue/return)."""
-        # Emit finally blocks in reverse order (innermost first)
-        for try_ctx in reversed(self.try_stack):
-            if try_ctx.finalizer:
-                self._compile_statement(try_ctx.finalizer)
+    def _emit_exit_code(self, target_index: int, returning: bool = False) -> None:
+        """Emit the code that leaves every context above loop_stack[target_index]
+        (innermost first): end protected regions, run finally blocks, and pop
+        the operands of for-in/for-of/switch statements.
+
+        With returning=True the return value is on top of the stack; the operands
+        below it are discarded by RETURN itself."""
+        for idx in range(len(self.loop_stack) - 1, target_index, -1):
+            ctx = self.loop_stack[idx]
+            if ctx.is_try:
+                if ctx.protected:
+                    self._emit(OpCode.TRY_END)
+                if ctx.finalizer is not None:
+                    # The finally block runs outside this try statement. A break or
+                    # continue in it abandons the pending return value.
+                    saved = self.loop_stack
+                    self.loop_stack = saved[:idx]
+                    if returning:
+                        self.loop_stack.append(
+                            LoopContext(is_loop=False, is_try=True, stack_slots=1)
+                        )
+                    self._compile_statement(ctx.finalizer)
+                    self.loop_stack = saved
+            if not returning:
+                for _ in range(ctx.stack_slots):
+                    self._emit(OpCode.POP)
+
+    def _compile_finalizer_then_rethrow(self, finalizer: Any) -> None:
+        """Exception path of try/finally: the exception is on the stack while the
+        finally block runs (a break or continue in it abandons the exception)."""
+        if finalizer is not None:
+            self.loop_stack.append(
+                LoopContext(is_loop=False, is_try=True, stack_slots=1)
+            )
+            self._compile_statement(finalizer)
+            self.loop_stack.pop()
+        self._emit(OpCode.THROW)  # Rethrow the exception
+
+    def _context_index(self, ctx: LoopContext) -> int:
+        """Position of a context on the stack (by identity: contexts compare equal
+        field by field)."""
+        for idx, candidate in enumerate(self.loop_stack):
+            if candidate is ctx:
+                return idx
+        raise ValueError("context is not on the stack")
+
+    def _take_label(self) -> Optional[str]:
+        """Label attached to the loop statement being compiled, if any."""
+        label = self._pending_label
+        self._pending_label = None
+        return label
 
     def _add_constant(self, value: Any) -> int:
         """Add a constant and return its index."""
@@ -454,7 +498,7 @@ class Compiler:
                 self._patch_jump(jump_false)
 
         elif isinstance(node, WhileStatement):
-            loop_ctx = LoopContext()
+            loop_ctx = LoopContext(label=self._take_label())
             self.loop_stack.append(loop_ctx)
 
             loop_start = len(self.bytecode)
@@ -477,7 +521,7 @@ class Compiler:
             self.loop_stack.pop()
 
         elif isinstance(node, DoWhileStatement):
-            loop_ctx = LoopContext()
+            loop_ctx = LoopContext(label=self._take_label())
             self.loop_stack.append(loop_ctx)
 
             loop_start = len(self.bytecode)
@@ -498,7 +542,7 @@ class Compiler:
             self.loop_stack.pop()
 
         elif isinstance(node, ForStatement):
-            loop_ctx = LoopContext()
+            loop_ctx = LoopContext(label=self._take_label())
             self.loop_stack.append(loop_ctx)
 
             # Init
@@ -540,7 +584,7 @@ class Compiler:
             self.loop_stack.pop()
 
         elif isinstance(node, ForInStatement):
-            loop_ctx = LoopContext()
+            loop_ctx = LoopContext(label=self._take_label(), stack_slots=1)
             self.loop_stack.append(loop_ctx)
 
             # Compile object expression
@@ -598,18 +642,19 @@ class Compiler:
 
             self._emit(OpCode.JUMP, loop_start)
             self._patch_jump(jump_done)
+            pop_pos = len(self.bytecode)
             self._emit(OpCode.POP)  # Pop iterator
 
-            # Patch break and continue jumps
+            # Patch break and continue jumps (break also has to pop the iterator)
             for pos in loop_ctx.break_jumps:
-                self._patch_jump(pos)
+                self._patch_jump(pos, pop_pos)
             for pos in loop_ctx.continue_jumps:
                 self._patch_jump(pos, loop_start)
 
             self.loop_stack.pop()
 
         elif isinstance(node, ForOfStatement):
-            loop_ctx = LoopContext()
+            loop_ctx = LoopContext(label=self._take_label(), stack_slots=1)
             self.loop_stack.append(loop_ctx)
 
             # Compile iterable expression
@@ -650,11 +695,12 @@ class Compiler:
 
             self._emit(OpCode.JUMP, loop_start)
             self._patch_jump(jump_done)
+            pop_pos = len(self.bytecode)
             self._emit(OpCode.POP)  # Pop iterator
 
-            # Patch break and continue jumps
+            # Patch break and continue jumps (break also has to pop the iterator)
             for pos in loop_ctx.break_jumps:
-                self._patch_jump(pos)
+                self._patch_jump(pos, pop_pos)
             for pos in loop_ctx.continue_jumps:
                 self._patch_jump(pos, loop_start)
 
@@ -668,6 +714,8 @@ class Compiler:
             target_label = node.label.name if node.label else None
             ctx = None
             for loop_ctx in reversed(self.loop_stack):
+                if loop_ctx.is_try:
+                    continue
                 if target_label is not None:
                     # Labeled break - find the matching label
                     if loop_ctx.label == target_label:
@@ -687,8 +735,8 @@ class Compiler:
                 else:
                     raise JSSyntaxError("'break' outside of loop")
 
-            # Emit pending finally blocks before the break
-            self._emit_pending_finally_blocks()
+            # Leave every statement between here and the target
+            self._emit_exit_code(self._context_index(ctx))
 
             pos = self._emit_jump(OpCode.JUMP)
             ctx.break_jumps.append(pos)
@@ -701,28 +749,31 @@ class Compiler:
             target_label = node.label.name if node.label else None
             ctx = None
             for loop_ctx in reversed(self.loop_stack):
-                # Skip non-loop contexts (like switch) unless specifically labeled
-                if not loop_ctx.is_loop and target_label is None:
+                # Only loops can be continued (not switch, labeled blocks or try)
+                if not loop_ctx.is_loop:
                     continue
                 if target_label is None or loop_ctx.label == target_label:
                     ctx = loop_ctx
                     break
 
             if ctx is None:
+                if target_label is None:
+                    raise JSSyntaxError("'continue' outside of loop")
                 raise JSSyntaxError(f"label '{target_label}' not found")
 
-            # Emit pending finally blocks before the continue
-            self._emit_pending_finally_blocks()
+            # Leave every statement between here and the target loop
+            self._emit_exit_code(self._context_index(ctx))
 
             pos = self._emit_jump(OpCode.JUMP)
             ctx.continue_jumps.append(pos)
 
         elif isinstance(node, ReturnStatement):
-            # Emit pending finally blocks before the return
-            self._emit_pending_finally_blocks()
-
+            # The result is computed first, then every enclosing try statement
+            # of this function is left (its finally block runs), then we return
             if node.argument:
                 self._compile_expression(node.argument)
+            self._emit_exit_code(-1, returning=bool(node.argument))
+            if node.argument:
                 self._emit(OpCode.RETURN)
             else:
                 self._emit(OpCode.RETURN_UNDEFINED)
@@ -733,15 +784,16 @@ class Compiler:
             self._emit(OpCode.THROW)
 
         elif isinstance(node, TryStatement):
-            # Push TryContext if there's a finally block so break/continue/return
-            # can inline the finally code
-            if node.finalizer:
-                self.try_stack.append(TryContext(finalizer=node.finalizer))
+            # Track the statement so that break/continue/return inside it can
+            # end the protected region and run the finally block
+            try_ctx = LoopContext(is_loop=False, is_try=True, finalizer=node.finalizer)
+            self.loop_stack.append(try_ctx)
 
             # Try block
             try_start = self._emit_jump(OpCode.TRY_START)
-
+            try_ctx.protected = True
             self._compile_statement(node.block)
+            try_ctx.protected = False
             self._emit(OpCode.TRY_END)
 
             # Jump past exception handler to normal finally
@@ -758,17 +810,27 @@ class Compiler:
                 slot = self._get_local(name)
                 self._emit(OpCode.STORE_LOCAL, slot)
                 self._emit(OpCode.POP)
-                self._compile_statement(node.handler.body)
+                if node.finalizer:
+                    # An exception thrown by the catch block still runs finally
+                    catch_guard = self._emit_jump(OpCode.TRY_START)
+                    try_ctx.protected = True
+                    self._compile_statement(node.handler.body)
+                    try_ctx.protected = False
+                    self._emit(OpCode.TRY_END)
+                    jump_after_catch = self._emit_jump(OpCode.JUMP)
+                    self.loop_stack.pop()
+                    self._patch_jump(catch_guard)
+                    self._compile_finalizer_then_rethrow(node.finalizer)
+                    self._patch_jump(jump_after_catch)
+                else:
+                    self._compile_statement(node.handler.body)
+                    self.loop_stack.pop()
                 # Fall through to finally
-            elif node.finalizer:
+            else:
                 # No catch, only finally - exception is on stack
                 # Run finally then rethrow
-                self._compile_statement(node.finalizer)
-                self._emit(OpCode.THROW)  # Rethrow the exception
-
-            # Pop TryContext before compiling normal finally
-            if node.finalizer:
-                self.try_stack.pop()
+                self.loop_stack.pop()
+                self._compile_finalizer_then_rethrow(node.finalizer)
 
             # Normal finally block (after try completes normally or after catch)
             self._patch_jump(jump_to_finally)
@@ -797,7 +859,7 @@ class Compiler:
 
             # Case bodies
             case_positions = []
-            loop_ctx = LoopContext(is_loop=False)  # For break statements only
+            loop_ctx = LoopContext(is_loop=False, stack_slots=1)  # For break statements only
             self.loop_stack.append(loop_ctx)
 
             for i, case in enumerate(node.cases):
@@ -806,6 +868,7 @@ class Compiler:
                     self._compile_statement(stmt)
 
             self._patch_jump(jump_end)
+            pop_pos = len(self.bytecode)
             self._emit(OpCode.POP)  # Pop discriminant
 
             # Patch jumps to case bodies
@@ -815,9 +878,9 @@ class Compiler:
                 pos, idx = default_jump
                 self._patch_jump(pos, case_positions[idx])
 
-            # Patch break jumps
+            # Patch break jumps (break also has to pop the discriminant)
             for pos in loop_ctx.break_jumps:
-                self._patch_jump(pos)
+                self._patch_jump(pos, pop_pos)
 
             self.loop_stack.pop()
 
@@ -850,6 +913,22 @@ class Compiler:
             self._emit(OpCode.POP)
 
         elif isinstance(node, LabeledStatement):
+            if isinstance(
+                node.body,
+                (
+                    WhileStatement,
+                    DoWhileStatement,
+                    ForStatement,
+                    ForInStatement,
+                    ForOfStatement,
+                ),
+            ):
+                # A labeled loop: the loop itself carries the label, so that
+                # both `break label` and `continue label` resolve to it
+                self._pending_label = node.label.name
+                self._compile_statement(node.body)
+                return
+
             # Create a loop context for the label
             # is_loop=False so unlabeled break/continue skip this context
             loop_ctx = LoopContext(label=node.label.name, is_loop=False)
